@@ -43,7 +43,7 @@ def generate(rng, tier, index):
         cfg = W.gen_stub_config(rng, nel=rng.choice([1, 2]), nphase=1, allow_gb=False, allow_shapes=False)
         conds = []
         for _ in range(rng.randint(1, 3)):
-            conds.append({'kind': rng.choice(['volfrac', 'radius', 'density', 'nucrate']), 'q': rng.choice([0.2, 0.5, 0.8, 'never']), 'phase': None})
+            conds.append({'kind': rng.choice(['volfrac', 'radius', 'density', 'nucrate']), 'q': rng.choice([0.2, 0.5, 0.8, 'never', 'revisit']), 'phase': None})
         T0 = cfg['T']['T']
         return {'kind': 'ttp', 'cfg': cfg, 'conds': conds, 'Tlow': T0 - rng.choice([10, 20]), 'Thigh': T0 + rng.choice([0, 10]), 'Tsteps': rng.randint(3, 5),
                 'maxTime': 10 ** rng.uniform(-2, -1), 'perm_seed': rng.randint(0, 10 ** 6), 'cap': 120, 'pilot_T': T0}
@@ -53,12 +53,20 @@ def generate(rng, tier, index):
     conds = []
     for _ in range(rng.randint(1, 4)):
         kind = rng.choice(KINDS)
-        c = {'kind': kind, 'q': rng.choice([0.15, 0.3, 0.5, 0.7, 0.9, 'never', 'already']), 'mode': rng.choice(['or', 'or', 'and'])}
+        c = {'kind': kind, 'q': rng.choice([0.15, 0.3, 0.5, 0.7, 0.9, 'never', 'already', 'revisit', 'revisit']), 'mode': rng.choice(['or', 'or', 'and'])}
         if kind == 'composition':
             c['element'] = rng.choice([None] + list(cfg['elements']))
         else:
             c['phase'] = rng.choice([None] + list(cfg['phases']))
         conds.append(c)
+    if any(c['q'] == 'revisit' for c in conds):
+        # a condition that is met and later no longer met is only observable while the run goes on: and-mode with a late companion
+        for c in conds:
+            if c['q'] == 'revisit':
+                c['mode'] = 'and'
+        comp = {'kind': rng.choice(KINDS), 'q': rng.choice(['never', 0.9]), 'mode': 'and'}
+        comp['element' if comp['kind'] == 'composition' else 'phase'] = None
+        conds = [c for c in conds if not (c['mode'] == 'or' and c['q'] != 'never')][:3] + [comp]
     rec['conds'] = conds
     rec['second_call'] = rng.random() < 0.5
     return rec
@@ -88,6 +96,18 @@ def place_threshold(cond, ser, N):
         return True, hi + 10 * span
     if q == 'already':
         return True, vals[0] - span
+    if q == 'revisit':
+        # a threshold the quantity crosses and later crosses back (met, then no longer met): exercises the latch
+        order = sorted(range(1, N + 1), key=lambda j: abs(j - N // 3))
+        for j in order[:40]:
+            if vals[j] == vals[j - 1]:
+                continue
+            v = 0.5 * (vals[j] + vals[j - 1])
+            g = vals[j] > vals[j - 1]
+            later = vals[j + 1:]
+            if any(((x > v) != g) for x in later):
+                return g, v
+        q = 0.3
     k = max(1, min(N, int(round(q * N))))
     # find a genuine change near k
     for j in list(range(k, N + 1)) + list(range(k - 1, 0, -1)):
